@@ -233,6 +233,11 @@ fn gen_case(r: &mut Rng, thorough: bool) -> P {
 
 impl C15 {
     fn judge_diagram(&self, ctx: &mut Ctx, class: &str, p: &P) {
+        self.judge_diagram_on(ctx, class, p, to_strict(p))
+    }
+
+    /// `lf` is the library value the layering is asked of, `p` what was read back from it (or what it was built from)
+    fn judge_diagram_on(&self, ctx: &mut Ctx, class: &str, p: &P, lf: SOh<u32, u64>) {
         let big = p.e.len() > 100;
         let input = || if big { json!("stress shape") } else { json!({"f": show(p)}) };
         let succ = op_succs(p);
@@ -264,7 +269,6 @@ impl C15 {
                 return;
             }
         }
-        let lf = to_strict(p);
 
         // layer()
         let cls = classes.first().cloned().unwrap_or("none");
@@ -517,6 +521,8 @@ impl Monitor for C15 {
             ("class:multiplicity_80", 1),
             ("class:parallel_dependencies_80", 1),
             ("class:stress_ring_with_tail", 1),
+            ("class:diagram_built_by_library_operations", 300),
+            ("class:incidence_assembled_with_coproduct", 200),
             ("class:layer_with_more_than_1024_dependencies", 1),
             ("class:fanout_2000", 1),
             ("api:dense_relative_indegree", 100),
@@ -552,6 +558,39 @@ impl Monitor for C15 {
             let p = chain(10_000 + r.below(5_000), r.next());
             ctx.class("stress_chain_random");
             self.judge_diagram(ctx, "stress_chain_random", &p);
+            return;
+        }
+        if r.chance(1, 10) {
+            // a diagram whose incidence arrays were assembled by appending operations with the library's coproduct of
+            // segmented arrays (as a user extending a diagram does), checked constructors on top
+            let p = gen_case(r, false);
+            if p.e.len() >= 2 {
+                let k = r.range(1, p.e.len() - 1);
+                let n = p.w.len();
+                let part = |es: &[PEdge<u64>], src: bool| seg_from_lists(&es.iter().map(|e| if src { e.s.clone() } else { e.t.clone() }).collect::<Vec<_>>(), n);
+                let built = guard(|| {
+                    let s = part(&p.e[..k], true).coproduct(&part(&p.e[k..], true))?;
+                    let t = part(&p.e[..k], false).coproduct(&part(&p.e[k..], false))?;
+                    let h = open_hypergraphs::strict::hypergraph::Hypergraph::new(s, t, sf(p.w.clone()), sf(p.e.iter().map(|e| e.l).collect())).ok()?;
+                    open_hypergraphs::strict::open_hypergraph::OpenHypergraph::new(ff(p.s.clone(), n), ff(p.t.clone(), n), h).ok()
+                });
+                if let Ok(Some(x)) = built {
+                    ctx.class("incidence_assembled_with_coproduct");
+                    self.judge_diagram_on(ctx, "assembled", &p, x);
+                }
+            }
+            return;
+        }
+        if r.chance(1, 6) {
+            // the same question asked of a diagram that a pipeline of library operations produced
+            let pa = OhParams { max_nodes: 5, max_edges: 4, max_arity: 3, max_iface: 3, node_labels: 2, edge_labels: 3 };
+            let (f, g) = gen::composable_pair(r, &pa);
+            let h = gen::oh(r, &pa);
+            if let Some((x, p, how)) = library_built(r, &f, &g, &h) {
+                ctx.class("diagram_built_by_library_operations");
+                ctx.count(&format!("pipeline:{}", how));
+                self.judge_diagram_on(ctx, "library_built", &p, x);
+            }
             return;
         }
         let p = gen_case(r, ctx.thorough);
